@@ -15,6 +15,21 @@ from .common import *
 from . import prove
 
 
+UNITS_P2BIN = {
+    'InpStart': 'A', 'ErgStart': 'A', 'ErgStop': 'A', 'StartAdr': 'A', 'StopAdr': 'A', 'Offset': 'A', 'Adr': 'A',
+    'EndAdr': 'A', 'EntryAdr': 'A',
+    'InpLen': 'B', 'Length': 'B', 'ErgLen': 'B', 'TransLen': 'B', 'ResLen': 'B', 'NextPos': 'B', 'SumLen': 'B',
+    'RealFileLen': 'B', 'StartHeader': 'B', 'AHeader': 'B', 'Rest': 'B', 'Trans': 'B',
+    'Gran': 'G', 'MaxGran': 'G', 'SizeDiv': '1', 'ANDMask': '1', 'ANDEq': '1',
+}
+UNIT_FUNCS = {'ftell': 'B', 'FileSize': 'B'}
+UNIT_EXC = {
+    'p2bin.c:ProcessFile:ErgStart+=':
+        'ErgStart is advanced by a byte count, but only its value modulo the lane mask (<= 3) is used afterwards and '
+        'every full chunk is BufferSize = 4096 bytes, a multiple of 4 for every granularity: no effect on the output',
+}
+
+
 def rsc_macros(facts, name):
     p = os.path.join(facts.dir, 'include', name)
     out = {}
@@ -231,5 +246,13 @@ def run(chk, facts, info):
                    '%s is computed only by MeasureFile and read by OpenTarget, but under the option configuration [%s] main '
                    'reaches OpenTarget and never the measuring pass (explicit -r range on a word-granular file: image too '
                    'short, gap not filled)' % (k.split(':')[-1], cfgtxt))
+    # R7 dimension check
+    chk.rule('C05-R7', 'p2bin.c: address-unit quantities (record/window addresses) and byte quantities (lengths, file '
+             'offsets) are only combined through the granularity: assignments, comparisons, fseek offsets, fread/fwrite '
+             'lengths and AddChunk ranges have matching dimensions', min_instances=25)
+    from . import units
+    n7 = 0
+    for fn in ('ProcessFile', 'MeasureFile', 'OpenTarget'):
+        n7 += units.check_function(chk, 'C05-R7', facts.func('p2bin.c', fn), UNITS_P2BIN, UNIT_EXC, UNIT_FUNCS)
     chk.note('Decided: filter binding, divisors, pre-fill order, overlap-warning control dependence, lane divisor '
              'constants, measured inputs of the pre-fill. Not decided: window, lane and address arithmetic per byte.')
